@@ -50,12 +50,15 @@ func NewItem(fam string, g *gram.Grammar, flags ...string) *Item {
 
 // Corpus is a built scratch module.
 type Corpus struct {
-	Root  string
-	Items []*Item
-	Bin   string
-	tools *gen.Tools
-	Pkgs  int
-	clean func()
+	// OnStderr, if set, receives each shard's stderr (used for race-detector reports).
+	OnStderr func(shard int, text string)
+	ExtraEnv []string
+	Root     string
+	Items    []*Item
+	Bin      string
+	tools    *gen.Tools
+	Pkgs     int
+	clean    func()
 }
 
 func (c *Corpus) Close() { c.clean() }
@@ -65,6 +68,11 @@ func pkgPath(id string) string { return "vt/g/" + id + "/o" }
 // Build generates all items with the real generator (in-process pool, cross-checked against the CLI), adds
 // adapters, and compiles one driver binary. Items whose generation fails are kept with GenOK=false.
 func Build(t *gen.Tools, pool *gen.Pool, tag string, items []*Item) (*Corpus, error) {
+	return BuildOpt(t, pool, tag, items, false)
+}
+
+// BuildOpt is Build with the option of compiling the driver with the race detector.
+func BuildOpt(t *gen.Tools, pool *gen.Pool, tag string, items []*Item, race bool) (*Corpus, error) {
 	root, cleanup := gen.Scratch(tag)
 	c := &Corpus{Root: root, tools: t, clean: cleanup}
 	mod := "module vt\n\ngo 1.24\n\nrequire verif v0.0.0\n\nreplace verif => " + ev.Root + "\n"
@@ -151,7 +159,11 @@ func Build(t *gen.Tools, pool *gen.Pool, tag string, items []*Item) (*Corpus, er
 	os.MkdirAll(filepath.Join(root, "drv"), 0o777)
 	os.WriteFile(filepath.Join(root, "drv", "main.go"), buf.Bytes(), 0o666)
 	c.Bin = filepath.Join(root, "drv.bin")
-	cmd := exec.Command("go", "build", "-o", c.Bin, "./drv")
+	args := []string{"build", "-o", c.Bin}
+	if race {
+		args = append(args, "-race")
+	}
+	cmd := exec.Command("go", append(args, "./drv")...)
 	cmd.Dir = root
 	cmd.Env = gen.GoEnv()
 	if out, err := cmd.CombinedOutput(); err != nil {
@@ -204,12 +216,19 @@ func (c *Corpus) Run(task string, n int, opt map[string]any, nshards int, each f
 		go func(s int) {
 			defer wg.Done()
 			cmd := exec.Command("/bin/sh", "-c", fmt.Sprintf("ulimit -v %d; exec \"$0\" \"$@\"", 8*1024*1024), c.Bin, sf, fmt.Sprint(s), fmt.Sprint(nshards))
-			cmd.Env = append(os.Environ(), "GOMAXPROCS=2")
+			if len(c.ExtraEnv) > 0 {
+				// the race detector reserves a huge virtual address range: no ulimit -v
+				cmd = exec.Command(c.Bin, sf, fmt.Sprint(s), fmt.Sprint(nshards))
+			}
+			cmd.Env = append(append(os.Environ(), "GOMAXPROCS=2"), c.ExtraEnv...)
 			var out, errb bytes.Buffer
 			cmd.Stdout, cmd.Stderr = &out, &errb
 			err := cmd.Run()
 			mu.Lock()
 			defer mu.Unlock()
+			if c.OnStderr != nil && errb.Len() > 0 {
+				c.OnStderr(s, errb.String())
+			}
 			for _, l := range bytes.Split(out.Bytes(), []byte("\n")) {
 				if len(bytes.TrimSpace(l)) > 0 {
 					each(l)
